@@ -46,7 +46,7 @@ def run_model_check(out, wd, tier, graph=False):
     cfg = mc_cfg(1 if tier == "quick" else 2, False, flags={"CheckGraph": "TRUE" if graph else "FALSE"})
     if graph:
         cfg += "INVARIANT GraphFresh\n"
-    res = tlc.run_tlc(wd, "MC_Update", cfg, workers=16, timeout=900 if tier == "quick" else 7200)
+    res = tlc.run_tlc(wd, "MC_Update", cfg, workers=16, timeout=900 if tier == "quick" else 3600)
     tlc.require_clean(res, "MC_Update")
     out.add_tlc(res, "MC_Update: every topology x every single edit, MaxList=%d, invariants NoStale%s"
                 % (1 if tier == "quick" else 2, " + GraphFresh" if graph else ""), exhaustive=res.completed)
@@ -165,7 +165,7 @@ def replay_model_domain(ns, wd, out, tier, tid0):
     n_edits = 0
     for T in chosen:
         model = model_of_topology(T)
-        for edit in edits_of_topology(model, rng, None if tier == "thorough" else 4):
+        for edit in edits_of_topology(model, rng, 10 if tier == "thorough" else 4):
             tid += 1
             try:
                 h = history.LiveHistory(ns, log, tid, model)
@@ -214,7 +214,7 @@ def run(tier, out):
         run_model_check(out, wd, tier)
         ns = efx.load()
         base = seed_from_env() * 100000
-        n_hist, n_edits = (24, 12) if tier == "quick" else (400, 30)
+        n_hist, n_edits = (24, 12) if tier == "quick" else (200, 20)
         events, shapes, actions, raised = record_histories(ns, range(base, base + n_hist), n_edits, out)
         dom_events, _tid, n_topo, n_all, n_dom = replay_model_domain(ns, wd, out, tier, 10 ** 6)
         events += dom_events
